@@ -627,6 +627,12 @@ fn append_instruction(ctx: &mut ValidationContext, inst: Operator, loc: InstrLoc
                                 )
                                 .unwrap();
                             ctx.pop_control().unwrap();
+                            // There is no `else` in the input: the `else` that gets
+                            // emitted for the consequent is synthesized and has no
+                            // source location, and the `end` we are looking at closes
+                            // the (empty) alternative.
+                            ctx.func.block_mut(consequent).end = Default::default();
+                            ctx.func.block_mut(alternative).end = loc;
                             alternative
                         }
                     };
